@@ -13,6 +13,8 @@ import HL.Lemmas.LexLocal
 import HL.Lemmas.LexCover
 import HL.Lemmas.LexMisc
 import HL.Lemmas.LexCache
+import HL.Lemmas.LexLexeme
+import HL.Lemmas.LexTextExact
 import HL.Generated.Expect.PureLexer
 namespace HL.Props.C06
 open HL HL.Lex HL.Spec.LexSpec
@@ -128,6 +130,85 @@ theorem tokens_tile (C : Classes) (input : Bytes) : pieces input 0 (lexAll C inp
     repaired finding `punct-empty-extent`) -/
 example : (lexAll Classes.ascii (asc "a | b")).map (fun t => (t.ty, t.pos.off, t.stop.off)) =
     [(.text, 0, 1), (.pipe, 2, 3), (.text, 4, 5), (.eof, 5, 5)] := by decide +kernel
+
+/-! ### a token ends with its lexeme -/
+
+/-- the bytes of the input between a token's `Pos` and its `End` -/
+def extent (input : Bytes) (t : Token) : Bytes := (input.drop t.pos.off).take (t.stop.off - t.pos.off)
+
+theorem extOf_eq_extent (C : Classes) (z : Z) : extOf (next C z) = extent z.input (next C z).1 := by
+  have hr := next_res C z
+  have h1 := hr.pos_le
+  have h2 := hr.stop_le
+  rw [← hr.adv.input]
+  generalize next C z = r at *
+  simp only [extOf, extent, Z.input]
+  have hd : (r.2.before.reverse ++ r.2.after).drop r.1.pos.off =
+      (r.2.before.take (r.2.before.length - r.1.pos.off)).reverse ++ r.2.after := by
+    rw [List.drop_append_of_le_length (by simp; omega), List.drop_reverse]
+  rw [hd, List.take_append_of_le_length (by simp; omega), List.take_reverse, List.length_take,
+    Nat.min_eq_left (by omega), List.drop_take]
+  congr 2
+  · omega
+  · congr 1; omega
+
+/-- **token_end_is_lexeme_end.**  For every byte string, every classifier and every token the
+    lexer returns, the bytes between `Pos.offset` and `End.offset` are the token's lexeme and
+    nothing else (`HL.Lex.Lexeme`, by token type): the value itself for an account — no blank
+    behind the name —, a date, a number, an indent, a directive word, a status mark, a sign, the
+    one- and two-character tokens, an unquoted commodity and the end of input; `;` and the
+    value for a comment; the value in its parentheses for a code and in its double quotes for a
+    quoted commodity (the closing delimiter may be missing at the end of the line); LF or CR LF
+    for a Newline token; and for a text token what `strings.TrimRightFunc(·, unicode.IsSpace)`
+    keeps of the scanned text — it ends with a rune that is not white space, the run of white
+    space behind it lies outside the token, and the value is `strings.TrimSpace` of the two
+    (`HL.Lex.TextLexeme`; a text of white space only keeps what was scanned, so that no token but
+    the EOF is empty).  A text token that does not start with white space covers exactly its
+    value (behind `skipSpaces` only white space other than blank and tab can stand at the start of
+    a text: there the extent keeps it in front of the value, the token's Pos being where the scan
+    started). -/
+theorem token_end_is_lexeme_end (C : Classes) (input : Bytes) :
+    ∀ t ∈ lexAll C input,
+      Lexeme t.ty t.val (extent input t) ∧
+      (t.ty = .text → isSpaceRune (Utf8.decodeRune (input.drop t.pos.off)).1 = false → extent input t = t.val) := by
+  rw [lexAll_eq_lexS]
+  refine lexS_forall_input C input _ ?_ input.length (Z.init input) (by simp [Z.init]) (by simp [Z.init, Z.input])
+  intro z hz
+  have h1 := next_lexeme C z
+  have h2 := next_textExact C z
+  unfold LexemeOk at h1
+  unfold TextExact at h2
+  rw [extOf_eq_extent C z, hz] at h1 h2
+  rw [(next_res C z).adv.input, hz] at h2
+  exact ⟨h1, h2⟩
+
+/-- An account token covers exactly the account name: the single blank `scanAccount` steps over
+    behind it (in front of `;` `=` `@` `)` `]` or the end of the line) is not part of the token
+    (`HL.Props.C08.pinned_account_trailing_blank_counterexample` keeps the old token). -/
+theorem account_token_is_its_name (C : Classes) (input : Bytes) :
+    ∀ t ∈ lexAll C input, t.ty = .account → extent input t = t.val := by
+  intro t ht hty
+  have := (token_end_is_lexeme_end C input t ht).1
+  rw [hty] at this
+  exact this
+
+/-- A text token that does not start with white space — e.g. a commodity written in lower case
+    or in non-ASCII letters, a description, a payee — covers exactly its value: the blanks
+    between it and a comment lie behind its End. -/
+theorem text_token_is_its_value (C : Classes) (input : Bytes) :
+    ∀ t ∈ lexAll C input, t.ty = .text →
+      isSpaceRune (Utf8.decodeRune (input.drop t.pos.off)).1 = false → extent input t = t.val :=
+  fun t ht => (token_end_is_lexeme_end C input t ht).2
+
+/-- `  a:b ;c` / `  c:d  1 руб \t; c`: the account token `a:b` ends before the blank (offsets 2–5),
+    the text token `руб` — six bytes, three runes — before the blank and the tab (18–24, End
+    column 13); the comments start at 6 and 26. -/
+example : (lexAll Classes.go [0x20, 0x20, 0x61, 0x3A, 0x62, 0x20, 0x3B, 0x63, 0x0A, 0x20, 0x20, 0x63, 0x3A, 0x64,
+      0x20, 0x20, 0x31, 0x20, 0xD1, 0x80, 0xD1, 0x83, 0xD0, 0xB1, 0x20, 0x09, 0x3B, 0x20, 0x63]).map
+      (fun t => (t.ty, t.pos.off, t.stop.off, t.stop.col)) =
+    [(.indent, 0, 2, 3), (.account, 2, 5, 6), (.comment, 6, 8, 9), (.newline, 8, 9, 1), (.indent, 9, 11, 3),
+     (.account, 11, 14, 6), (.number, 16, 17, 9), (.text, 18, 24, 13), (.comment, 26, 29, 18),
+     (.eof, 29, 29, 18)] := by decide +kernel
 
 /-! ### lines -/
 
